@@ -221,6 +221,21 @@ pub fn run(ctx: &'static Ctx) {
             long.push((format!("n={} pattern {:?}", n, pat), V::A((0..n).map(|k| alpha[pat[k % 3]].clone()).collect())));
         }
     }
+    // entry counts across the 23/24 and 255/256 array-head boundaries (a count narrowed to one byte, a cap on the
+    // entries looked at): known entries at the very end, at both ends, as the last two, and none at all
+    for n in [23usize, 24, 25, 254, 255, 256, 257, 280] {
+        let base = |n: usize| -> Vec<V> { (0..n).map(|k| param(-300 - k as i64, PUBLIC_KEY)).collect() };
+        let mut items = base(n);
+        long.push((format!("n={} no known entry", n), V::A(items.clone())));
+        items[n - 1] = param(-7, PUBLIC_KEY);
+        long.push((format!("n={} ES256 last", n), V::A(items.clone())));
+        items[0] = param(-8, PUBLIC_KEY);
+        long.push((format!("n={} EdDSA first, ES256 last", n), V::A(items)));
+        let mut items = base(n);
+        items[n - 2] = param(-8, PUBLIC_KEY);
+        items[n - 1] = param(-7, PUBLIC_KEY);
+        long.push((format!("n={} EdDSA, ES256 as the last two", n), V::A(items)));
+    }
     // several filtered-out entries with identifiers of large magnitude (anything accumulated over them)
     for ty in ["x", "private-key", ""] {
         for (a, b) in [(1i64 << 30, 1i64 << 30), (i32::MAX as i64, i32::MAX as i64), (i32::MIN as i64, i32::MIN as i64), (i32::MIN as i64, -1), (i32::MAX as i64, 1), ((1 << 30) + 7, (1 << 30) - 7)] {
@@ -253,7 +268,7 @@ pub fn run(ctx: &'static Ctx) {
         }
     }
     let (lr, pr) = (&long, &pctx);
-    sweep(ctx, "long parameter lists", (long.len() * pctx.len()) as u64, "lists of 12, 13, 16, 17 and 64 entries: unknown algorithms with the known ones at every ordered pair of positions and every single position; every 3-letter pattern repeated", move |idx, l| {
+    sweep(ctx, "long parameter lists", (long.len() * pctx.len()) as u64, "lists of 12, 13, 16, 17 and 64 entries: unknown algorithms with the known ones at every ordered pair of positions and every single position; every 3-letter pattern repeated; lists of 23..=25 and 254..=280 entries (array-head boundaries) with the known entries last, at both ends, as the last two, or absent", move |idx, l| {
         let (what, list) = &lr[(idx as usize) / pr.len()];
         let c = &pr[(idx as usize) % pr.len()];
         let wire = if c.path.is_empty() { list.clone() } else { treewalk::replaced(&c.wire, &c.path, list.clone()) };
